@@ -94,12 +94,18 @@ def replay(params, model, wd):
         return tokfam.replay(params, model, wd)
     used, tags, nums = F.decode_sort(params, model)
     paths = params["paths"]
-    lines, outl, offs, idx, err = F.real_sort(wd, paths, tags, nums, params.get("gz_in"), params.get("gz_out"),
-                                              no_final_newline=bool(params.get("no_final_newline")), prior=bool(params.get("prior")))
-    if err and "KeyError: 'unknown'" not in err:
-        return {"reproduced": True, "key": "C09:sort:exception:" + err.split(":")[0], "what": "run_sort raised " + err}
-    v = concrete_content_violation(paths, tags, nums, lines, outl)
-    if v:
-        return {"reproduced": True, "key": "C09:content:" + v[0], "what": v[1],
-                "files": {"gaf": lines, "graph_tags": tags, "output": outl}}
-    return {"reproduced": False, "detail": "real run_sort output matches", "output": outl}
+    import os
+
+    # the same records twice: pure ASCII, and with a comment field holding multi-byte characters (offsets in a file are bytes)
+    for utf8 in (False, True):
+        d = os.path.join(wd, "utf8" if utf8 else "ascii")
+        os.makedirs(d)
+        lines, outl, offs, idx, err = F.real_sort(d, paths, tags, nums, params.get("gz_in"), params.get("gz_out"),
+                                                  no_final_newline=bool(params.get("no_final_newline")), prior=bool(params.get("prior")), utf8=utf8)
+        if err and "KeyError: 'unknown'" not in err:
+            return {"reproduced": True, "key": "C09:sort:exception:" + err.split(":")[0], "what": "run_sort raised " + err}
+        v = concrete_content_violation(paths, tags, nums, lines, outl)
+        if v:
+            return {"reproduced": True, "key": "C09:content:" + v[0] + (":multibyte" if utf8 else ""), "what": v[1],
+                    "files": {"gaf": lines, "graph_tags": tags, "output": outl}}
+    return {"reproduced": False, "detail": "real run_sort output matches (ASCII and multi-byte records)", "output": outl}
